@@ -53,6 +53,20 @@ pub fn msg_class(m: &str) -> String {
     out.trim().to_string()
 }
 
+/// For workloads made of programs that are valid by construction: a compiler crash on one of them is a
+/// violation of the property at hand (the program is not compiled to what it means), not only a C04 event.
+pub fn inconclusive_unless_crash(case: &mut Case, prop: &str, reason: &str, label: &str, src: &str) {
+    if reason.starts_with("compiler panic") {
+        case.violation(
+            format!("{}:compiler-crash-on-valid-program:{}", prop, msg_class(reason)),
+            format!("a program that is valid by construction makes the compiler crash: {}", reason),
+            json!({"label": label, "source": util::truncate(src, 8000)}),
+        );
+    } else {
+        case.inconclusive(msg_class(reason));
+    }
+}
+
 /// keep the source of odd-but-not-violating cases (rejects of generated programs, invalid Go outside C02) for triage;
 /// at most one file per (property, class), under /verif/out/triage (not read by any check)
 pub fn stash(prop: &str, class: &str, label: &str, src: &str) {
